@@ -110,3 +110,11 @@ package cert
 //@   ensures nopanic
 //@   ensures result != nil && fresh(result)
 //@   ensures typeIs(atomStored[addrOfField(result, cs)], certstore) && len(unbox(atomStored[addrOfField(result, cs)], certstore).Certificates) == 0
+
+//@ // ---- C11: the HTTP source hands on only what the server served as a success -----------------------------------
+//@ // an error page (404, 500, ...) is not certificate material: taking it for the file list yields a list without a single
+//@ // certificate, which the watcher would publish as the new (empty) set
+//@ func loadURL$1
+//@   props C11
+//@   assigns *
+//@   at "return io.ReadAll(resp.Body)" assert resp != nil && resp.StatusCode == 200
